@@ -28,6 +28,7 @@ RULE = (
     "completed; a completed stage that is resubmitted does not submit any later stage again. non-trivial = >= 2 "
     "stages and >= 2 batches in some stage; distinct by hash of the case"
 )
+RULE += " Later additions (DESIGN.md 9): " + "stages may have a submission-level teardown command with a generated exit status; one operator command on a generated stage's directory bound to the end of one of its batches; no stage of a fault-free pipeline completes with missing jobs."
 ASSUMPTIONS = C.WORLD_ASSUMPTIONS + ["auto-config commands succeed and write the expected file"]
 setup, teardown = C.setup, C.teardown
 
